@@ -1158,7 +1158,11 @@ const c19Rule = "codec: random variant value trees (21 primitive kinds with boun
 	"with and without null/empty ancestors; 5 write x 4 read paths); every top-level file also read through the columnar " +
 	"VariantReader and through 4 evolved reader schemas (columns added before/between/after the variant, id dropped); larger files with " +
 	"dictionary-encoded typed_value leaves, small DictionaryMaxBytes/PageBufferSize, several row groups, page v1/v2 read through " +
-	"VariantReader with 3 window sizes; distinct by schema + write path + row texts; " +
+	"VariantReader with 3 window sizes; the (definition level, repetition level, value) cells of every leaf column of these files " +
+	"compared with the level mirror; foreign-style files written cell by cell (raw parquet.Row values from the level mirror) with " +
+	"16-byte DECIMAL typed_value leaves laid out as minimal-length / sign-padded BYTE_ARRAY or FIXED_LEN_BYTE_ARRAY(n <= 16) " +
+	"(values of 1..16 significant bytes whose sign and low-byte top bit are independent), top-level and below the 4 ancestor shapes, " +
+	"read through every read path; distinct by schema + write path + row texts; " +
 	"non-trivial = the column has a typed_value or sits below an optional/repeated ancestor"
 
 func RunC19Codec(ctx *core.Ctx) {
